@@ -86,7 +86,16 @@ impl Sync {
             rollback.post_meta();
         }
 
-        bitbox_sync.post_meta(shared.io_pool.make_handle())?;
+        // If the hash-table writeout fails, still wait for the rollback log's post-meta task: no
+        // background work of this sync may still be changing files when the failure is reported
+        // (the handle may be dropped right afterwards).
+        let bitbox_post_meta = bitbox_sync.post_meta(shared.io_pool.make_handle());
+        if bitbox_post_meta.is_err() {
+            if let Some(ref rollback) = rollback_sync {
+                let _ = rollback.wait_post_meta();
+            }
+        }
+        bitbox_post_meta?;
         beatree_sync.post_meta();
 
         if let Some(ref rollback) = rollback_sync {
